@@ -1,15 +1,19 @@
 import CryoCat.Lemmas.C10
 /-! C10 — the code's own arithmetic for the subunit offset (polar form: `rho = sqrt(s0²+s1²)`, `the = arctan2(s1, s0)`,
 `(rho·cos(the + deg2rad(phi_k)), rho·sin(…), s2)`, with `phi_k = k·(360/n)` evaluated as ONE product) equals the
-Cartesian rotation `Rz(phi_k)·s` the orbit theorems are stated with — over any field, for any numeric services that
-are exact in the sense of `PolarExact` (instantiated over ℝ with `Real.sqrt`, `Complex.arg`, `Real.cos/sin` in
-`Lemmas/C10_PolarReal`). -/
+Cartesian rotation `Rz(phi_k)·s` the orbit theorems are stated with — over any field, UNDER the identities `PolarExact`
+(polar coordinates, angle addition), which hold for the real `sqrt` / `arg` / `cos` / `sin` (`Lemmas/C10_PolarReal`:
+`realPolar_exact`); the abstract version factors the algebra, the substance is the instance over ℝ. -/
 namespace CryoCat.C10
 variable {α : Type} [_root_.Field α]
 
-/-- exactness of the services behind the polar form, stated as the identities the code relies on:
-`(rho, the)` are polar coordinates of `(x, y)` (also at the origin, where `rho = 0`), `cos/sin(a + deg2rad d)` obey the
-addition formulas against the degree-trigonometry `sv.trig d`, and `sv.trig` turns sums of degrees into angle sums -/
+/-- the identities the polar form relies on, taken as HYPOTHESES about the numeric services: `(rho, the)` are polar
+coordinates of `(x, y)` (also at the origin, where `rho = 0`), `cos/sin(a + deg2rad d)` obey the addition formulas
+against the degree-trigonometry `sv.trig d`, and `sv.trig` turns sums of degrees into angle sums. These ARE the
+mathematical content of "polar form = rotation": the theorems below (`centerShift_eq`, `expandP_eq`) only carry them
+through the algebra of the function (linear combinations, induction over `k`, the list structure). The identities hold
+for the real `sqrt` / `arg` / `cos` / `sin` (`realPolar_exact` in `Lemmas/C10_PolarReal`), which is where the statement
+has substance; binary64 `libm` meets them only approximately (the driver's results are compared with tolerance). -/
 structure PolarExact (sv : Svc α) (pv : PolarSvc α) : Prop where
   polar_x : ∀ x y, pv.sqrt (x * x + y * y) * pv.cosr (pv.atan2 y x) = x
   polar_y : ∀ x y, pv.sqrt (x * x + y * y) * pv.sinr (pv.atan2 y x) = y
